@@ -280,6 +280,13 @@ Proof.
   destruct (m s) as [a s2|e s2|t1]; [|exact H|exact H]. destruct (m2 a s2) as [b s3|e s3|t1]; exact H.
 Qed.
 
+Lemma msafe_unret : forall A B (m : Mst A) (k : A -> Mst B),
+  msafe (bind m (fun a => bind (k a) (fun u => ret u))) -> msafe (bind m k).
+Proof.
+  intros A B m k H0 s t H. apply (H0 s t). unfold bind in *. destruct (m s) as [a s2|e s2|t1]; [|exact H|exact H].
+  destruct (k a s2) as [b s3|e s3|t1]; [discriminate|discriminate|exact H].
+Qed.
+
 Section WithOps.
 Variable f_key : f32 -> outcome Z.
 Variable f_tosize : f32 -> outcome N.
@@ -304,7 +311,9 @@ Proof.
   apply msafe_regroup. fold (points_block s nP). apply points_unit_safe. intros u4.
   apply msafe_bind; [apply msafe_getS|]. intros s1.
   apply msafe_bind; [ms|]. intros gi2.
-  apply msafe_regroup. fold (analogs_block s nA). apply analogs_unit_safe. intros u5. apply msafe_uh.
+  apply msafe_bind; [apply msafe_get_group|]. intros ga0.
+  apply msafe_bind; [|intros u5; apply msafe_uh].
+  apply msafe_when. apply msafe_unret. fold (analogs_block s nA). apply analogs_unit_safe. intros u. apply msafe_ret.
 Qed.
 
 (* ---------- the column validators: their unchecked accesses are in range under the guards that precede them ---------- *)
@@ -538,10 +547,22 @@ Proof.
   unfold nan_of in Ea.
   assert (Ha1 : r_int0 24 (groups s1) nm_ANALOG nm_USED = Ok a).
   { unfold r_int0. rewrite (Kl nm_ANALOG nm_USED) by (left; discriminate). exact Ha. }
+  (* the ANALOG group holds a parameter (USED was just read): the "nothing analog anywhere" shortcut is not taken *)
+  assert (Gn : exists ga0, group_named (groups s1) nm_ANALOG = Ok ga0 /\ g_params ga0 <> []).
+  { unfold r_int0, lookup in Ha1. destruct (group_named (groups s1) nm_ANALOG) as [ga0| |]; cbn [obind] in Ha1; try discriminate.
+    exists ga0. split; [reflexivity|]. intros E0. unfold param_named, param_idx in Ha1. rewrite E0 in Ha1. cbn in Ha1. discriminate. }
+  destruct Gn as [ga0 [Gn Pne]].
   unfold bind at 1 in Hr.
-  destruct (fr_subs f0) as [|sf0 st0]; unfold ret at 1 in Hr; unfold bind at 1 in Hr; rewrite int0_pure, Ha1 in Hr; cbn [lift] in Hr;
-    unfold bind at 1 in Hr; rewrite Ea, N.eqb_refl in Hr; cbn [negb when] in Hr; unfold ret at 1 in Hr;
-    (left; exists s1; split; [symmetry; exact Hr|]; rewrite Ef in Kf; auto).
+  assert (GG : get_group nm_ANALOG s1 = ROk ga0 s1) by (unfold get_group; cbv [bind getS]; rewrite Gn; reflexivity).
+  rewrite GG in Hr.
+  assert (NA : no_analog_anywhere ga0 [] (f0 :: ft) = false) by (unfold no_analog_anywhere; destruct (g_params ga0); [congruence|reflexivity]).
+  rewrite NA in Hr. cbn [negb when] in Hr.
+  unfold bind at 1 in Hr.
+  match type of Hr with context [match ?B s1 with ROk _ _ => _ | RThrow _ _ => _ | RUB _ => _ end] => assert (EB : B s1 = ROk tt s1) end.
+  { unfold bind at 1.
+    destruct (fr_subs f0) as [|sf0 st0]; unfold ret at 1; unfold bind at 1; rewrite int0_pure, Ha1; cbn [lift];
+      rewrite Ea, N.eqb_refl; cbn [negb when]; reflexivity. }
+  rewrite EB in Hr. left. exists s1. split; [symmetry; exact Hr|]. rewrite Ef in Kf. auto.
 Qed.
 End FrameKeepsParameters.
 
